@@ -9,30 +9,22 @@ ALL = ["C%02d" % i for i in range(1, 21)]
 TB = ("Trusted: Coq 8.16.1 kernel (vm_compute, no native_compute), no axioms (Print Assumptions audited on every run), "
       "ExtrOcamlBasic extraction + hand-written OCaml driver, the Rust harness and Python generators/oracles. ")
 
-CHECKS = {
-    "C07": dict(
-        text="Theorems about an executable Gallina model of TextArchive's in-memory API (step laws, NoDup keys, lookup = last write, "
-             "keys in strict birth order, escape/unescape inverse on stored messages, store-back is the identity, dirty flag), all closed under "
-             "the global context; the model is tied to /repo on every run by running the extracted model and the real library on the same "
-             "histories (bounded-exhaustive + random) and comparing the full observable state after every call; an independent executable "
-             "statement of the property is evaluated on the implementation's outputs as oracle.",
-        note=TB + "Modelled, not verified: IndexMap, str::replace (A-std); strings as lists of scalar values.",
-        technique="Coq proof (induction over histories, refinement to ordered key list) + extracted-model differential check",
-        ref="DESIGN.md section 3 (C07)"),
-    "C14": dict(
-        text="Theorems about an executable Gallina model of the six path localizers: the transcribed per-language push strings equal the "
-             "specification table written from the property text for all 5x8 pairs (finite proof), localize = directory part + marker + final "
-             "component on every path of plain components (any depth, any characters, trailing slash or not), single components get the marker "
-             "appended, degenerate paths are errors; model tied to /repo by exhaustive correspondence over localizers x languages x a structured path "
-             "family plus arbitrary strings (no panic), and an independent oracle table.",
-        note=TB + "Modelled, not verified: std::path::Path::parent/file_name (on plain-component paths and the strings \"\", \"/\", \"..\", \".\"); "
-                  "other strings are outside the model and only checked for 'returns, no panic'. Filesystem consistency of the mapping is covered under C12/C13.",
-        technique="Coq proof (finite table by computation + list lemmas on split/join) + exhaustive extracted-model differential check",
-        ref="DESIGN.md section 5 (C14)"),
-}
+def load_checks():
+    """Every gen/cNN.py that defines MANIFEST = dict(text=, note=, technique=, ref=) is a claimed check."""
+    import importlib
+    import sys
+    sys.path.insert(0, os.path.join(HERE, "gen"))
+    out = {}
+    for pid in ALL:
+        if os.path.exists(os.path.join(HERE, "gen", pid.lower() + ".py")):
+            mod = importlib.import_module(pid.lower())
+            if hasattr(mod, "MANIFEST"):
+                out[pid] = mod.MANIFEST
+    return out
 
 
 def main():
+    CHECKS = load_checks()
     checks = []
     for pid in ALL:
         if pid not in CHECKS:
